@@ -56,12 +56,26 @@ def run_one(p):
     y = torch.randn(6, 1, generator=g, dtype=torch.float64)
     Xv = torch.randn(3, 3, generator=g, dtype=torch.float64)
     yv = torch.randn(3, 1, generator=g, dtype=torch.float64)
+    want = 'accuracy' if p['maximize'] else 'mse'
+    other = 'mse' if p['maximize'] else 'accuracy'
+    via = p.get('metric_via', 'ctor')
+    # how the tuning metric reaches the leaf model: constructor, fit keyword, fit keyword overriding an opposite-direction
+    # constructor value, or a re-fit of an object that was first fitted with the opposite-direction metric
     model = RFM(kernel=p['kernel'], bandwidth=2.0, exponent=1.0, iters=p['iters'], device='cpu', verbose=False,
                 bandwidth_mode='adaptive' if p['adaptive'] else 'constant',
-                tuning_metric='accuracy' if p['maximize'] else 'mse', diag=p.get('diag', False))
+                tuning_metric=want if via == 'ctor' else other if via in ('fit-flip', 'refit') else 'mse', diag=p.get('diag', False))
+    fit_kw = dict(iters=p['iters'], reg=1e-3, return_best_params=p['return_best'], early_stop_rfm=p['early'],
+                  early_stop_multiplier=p['mult'], verbose=False)
+    if via == 'refit':
+        first = ScriptedFit(model, scores=[1.0] * (p['iters'] + 1))
+        model.fit((X, y), (Xv, yv), **fit_kw)
+        model = first.model
+        # undo the instance-level wrappers of the first recording
+        del model.fit_predictor, model._compute_validation_metrics
+    if via != 'ctor':
+        fit_kw['tuning_metric'] = want
     rec = ScriptedFit(model, scores=p['scores'])
-    model.fit((X, y), (Xv, yv), iters=p['iters'], reg=1e-3, return_best_params=p['return_best'],
-              early_stop_rfm=p['early'], early_stop_multiplier=p['mult'], verbose=False)
+    model.fit((X, y), (Xv, yv), **fit_kw)
     return rec.n_evals, rec.tags(), model.best_iter
 
 
@@ -106,6 +120,7 @@ def execute(chunk):
                                  p['adaptive'], p['kernel']] if len(set(s)) > 1 or p['iters'] == 0 else None
             res['dist'] = {'iters': p['iters'], 'evaluated': n_evals, 'selected_pos':
                            ('first' if m.get('w') == 0 else 'last' if m.get('w') == p['iters'] else 'middle'),
+                           'metric_via': p.get('metric_via', 'ctor'),
                            'stopped_early': n_evals < p['iters'] + 1}
             res['sample'] = {'scores': p['scores'], 'maximize': p['maximize'], 'early': p['early'], 'mult': p['mult'],
                              'impl': {'evals': n_evals, 'tags': tags, 'best_iter': best_iter}, 'model': m}
@@ -137,7 +152,8 @@ def gen_cases(run):
         cases.append(dict(family='random-histories', scores=hist, iters=iters, maximize=r.random() < 0.5,
                           early=r.random() < 0.6, mult=r.choice([1.0, 1.05, 1.1, 1.25, 1.5]),
                           return_best=r.random() < 0.8, adaptive=r.random() < 0.5,
-                          kernel=r.choice(['l2', 'l2_high_dim']), diag=r.random() < 0.3, dseed=r.randint(0, 10 ** 6)))
+                          kernel=r.choice(['l2', 'l2_high_dim']), diag=r.random() < 0.3, dseed=r.randint(0, 10 ** 6),
+                          metric_via=r.choice(['ctor', 'fit', 'fit-flip', 'refit'])))
     return cases
 
 
